@@ -1,6 +1,7 @@
 import AvroModel
 import AvroProofs.Lemmas.RoundTrip
 import AvroProofs.Lemmas.DecodeConforms
+import AvroProofs.Lemmas.Prim
 /-!
 # C06 — a successfully decoded value conforms to the schema
 
@@ -14,20 +15,20 @@ open Avro
 
 /-- Whenever the model decoder succeeds on **any** byte string, the value it returns conforms to
 the schema (canonical representation, all lengths within the limit). -/
-theorem decode_conforms (cfg : Cfg) (env : Names) (hP : PrimFacts)
+theorem decode_conforms (cfg : Cfg) (env : Names)
     (h1 : 1 ≤ cfg.szValue) (h2 : 1 ≤ cfg.szEntry) (hl : 36 ≤ cfg.lim) (henv : EnvOk env)
     (fuel : Nat) (s : Schema) (hs : wfS s = true) (bs : Bytes) (v : Value) (rest : Bytes)
     (h : decode cfg env fuel s bs = .ok (v, rest)) : Conforms cfg env s v :=
-  decode_conforms_aux hP h1 h2 hl henv fuel s bs v rest hs h
+  decode_conforms_aux primFacts h1 h2 hl henv fuel s bs v rest hs h
 
 /-- …hence it re-encodes, and the re-encoding decodes to the same value (with C01). -/
-theorem decode_reencode (cfg : Cfg) (env : Names) (hP : PrimFacts)
+theorem decode_reencode (cfg : Cfg) (env : Names)
     (h1 : 1 ≤ cfg.szValue) (h2 : 1 ≤ cfg.szEntry) (hl : 36 ≤ cfg.lim) (hl63 : cfg.lim < 2^63)
     (henv : EnvOk env) (fuel : Nat) (s : Schema) (hs : wfS s = true) (bs : Bytes) (v : Value)
     (rest : Bytes) (h : decode cfg env fuel s bs = .ok (v, rest)) :
     ∃ bs' n, ∀ fuel', n ≤ fuel' →
       encode env fuel' s v = .ok bs' ∧ ∀ r, decode cfg env fuel' s (bs' ++ r) = .ok (v, r) :=
-  conforms_rt hl63 (decode_conforms cfg env hP h1 h2 hl henv fuel s hs bs v rest h)
+  conforms_rt hl63 (decode_conforms cfg env h1 h2 hl henv fuel s hs bs v rest h)
 
 /-! non-vacuity: the decoder does succeed on non-canonical input (a negative block count with a
 byte size, a second block), and the hypotheses are satisfiable -/
